@@ -17,7 +17,7 @@ from common import Case
 FAMILY = "tdigest"
 CORR = "TDigest"
 FAMNUM = 8
-ORACLES = {"prop_ok": 0, "tie_ok": 1, "c15_ok": 2, "codec_ok": 3, "twin_ok": 4, "foreign_ok": 5, "no_panic": 6}
+ORACLES = {"prop_ok": 0, "tie_ok": 1, "c15_ok": 2, "codec_ok": 3, "twin_ok": 4, "foreign_ok": 5, "no_panic": 6, "acc_ok": 7}
 GEN_MODULES = [("GenTDigest", ["tdigest/serialization.rs", "tdigest/sketch.rs"],
                 ["PREAMBLE_LONGS_EMPTY_OR_SINGLE", "PREAMBLE_LONGS_MULTIPLE", "SERIAL_VERSION", "FLAGS_IS_EMPTY",
                  "FLAGS_IS_SINGLE_VALUE", "FLAGS_REVERSE_MERGE", "COMPAT_DOUBLE", "COMPAT_FLOAT", "BUFFER_MULTIPLIER",
@@ -164,29 +164,30 @@ def qgrid(rng, total=None):
 
 
 def vgrid(rng, means, mn, mx, extra=()):
+    """query values around the given means; overflow-safe (means may be next to +-f64::MAX), never NaN / infinite"""
     vs = set(means) | {mn, mx, mn - 1, mx + 1, mn - 0.5, mx + 0.25} | set(extra)
     ms = sorted(set(means))
     for a, b in zip(ms, ms[1:]):
-        vs.add((a + b) / 2); vs.add(a + (b - a) / 4)
+        vs.add(a / 2 + b / 2); vs.add(a + (b / 4 - a / 4))
     if ms:
-        vs.add((mn + ms[0]) / 2); vs.add((mx + ms[-1]) / 2); vs.add(mn + (ms[0] - mn) / 8); vs.add(mx - (mx - ms[-1]) / 8)
+        vs.add(mn / 2 + ms[0] / 2); vs.add(mx / 2 + ms[-1] / 2); vs.add(mn + (ms[0] / 8 - mn / 8)); vs.add(mx - (mx / 8 - ms[-1] / 8))
     for j in range(17):
-        vs.add(mn + (mx - mn) * j / 16)
-    return sorted(v + 0.0 for v in vs)
+        vs.add(mn * ((16 - j) / 16) + mx * (j / 16))
+    return sorted(v + 0.0 for v in vs if math.isfinite(v))
 
 
 def splits(rng, mn, mx, means):
     r = rng.random()
     if r < 0.2:
         return []
-    pool = sorted(set([mn, mx, (mn + mx) / 2, mn - 1, mx + 1] + list(means)))
+    pool = sorted(set(v for v in [mn, mx, mn / 2 + mx / 2, mn - 1, mx + 1] + list(means) if math.isfinite(v)))
     n = rng.randint(1, min(8, len(pool)))
     return sorted(rng.sample(pool, n))
 
 
 def random_view(rng, kind):
-    """a valid image: sorted dyadic means, positive weights, min <= first mean, last mean <= max,
-    unit end centroids sitting on min / max (unless kind says otherwise)"""
+    """a valid image: sorted dyadic means, positive weights, min <= first mean, last mean <= max; unit end
+    centroids away from min / max (the region of the former finding tdigest-D17) are NOT avoided"""
     n = rng.choice([1, 2, 2, 3, 3, 4, 5, 6, 8, 12, 20]) if rng.random() < 0.9 else rng.randint(20, 120)
     pool_bits = rng.choice([3, 6, 20])
     means = sorted(dyadic(rng, pool_bits, -4, 6) for _ in range(n))
@@ -219,7 +220,8 @@ def random_view(rng, kind):
             ws[-1] = 1; mx = means[-1] + rng.choice([1, 2, 8])
         if n == 1:
             ws[0] = 1
-    else:
+    elif rng.random() < 0.5:
+        # half of the other images keep unit end centroids on min / max (the in-process shape)
         if ws[0] == 1:
             mn = means[0]
         if ws[-1] == 1:
@@ -232,7 +234,7 @@ def random_view(rng, kind):
 def image_case(rng, cid, tier):
     """C10 on deserialized images (heavy first/last centroids, duplicates, single centroid ...)"""
     r = rng.random()
-    kind = "heavy-ends" if r < 0.45 else ("loose-unit" if r > 0.96 else "any")
+    kind = "heavy-ends" if r < 0.4 else ("loose-unit" if r > 0.8 else "any")
     mn, mx, cs = random_view(rng, kind)
     k = rng.choice([10, 20, 100, 200, 500, rng.randint(10, 500)])
     b = Builder(rng)
@@ -249,15 +251,10 @@ def image_case(rng, cid, tier):
     sp = splits(rng, mn, mx, means)
     b.query(3, 0, mode, sp); b.query(5, 0, mode, sp); b.query(6, 0, mode, sp)
     b.rq(0, qgrid(rng, total)[:40])
-    # A value inside (min, first mean] or [last mean, max) becomes a unit first/last centroid that
-    # is NOT min/max after the next pass: the known class D17 (tagged); untagged cases stay outside.
-    derived_loose = kind != "loose-unit" and rng.random() < 0.08
-    def safe(x):
-        inside = (mn < x <= means[0]) or (means[-1] <= x < mx)
-        return inside if derived_loose and (mn < means[0] or means[-1] < mx) else not inside
+    # A value inside (min, first mean] or [last mean, max) becomes a unit first/last centroid that is NOT
+    # min/max after the next pass (the region of the former finding tdigest-D17): offered on purpose.
     def pick(pool):
-        ok = [x for x in pool if safe(x)]
-        return rng.choice(ok) if ok else rng.choice([mn, mx])
+        return rng.choice(pool)
     inside_pool = [(mn + means[0]) / 2, (mx + means[-1]) / 2, mn + (means[0] - mn) / 4, mx - (mx - means[-1]) / 4]
     r = rng.random()
     if r < 0.35:
@@ -284,8 +281,7 @@ def image_case(rng, cid, tier):
     elif r < 0.85:
         b.roundtrip(0); b.dump(0); b.scalars(0)
         b.query(4, 0, 0, qgrid(rng, total))
-    tag = "td-known-loose-unit" if (kind == "loose-unit" or derived_loose) else "td-image-" + kind
-    return Case(cid, [], b.ops, tag=tag)
+    return Case(cid, [], b.ops, tag="td-image-" + kind)
 
 
 def stream(rng, shape, n):
@@ -305,19 +301,34 @@ def stream(rng, shape, n):
         return [math.ldexp(rng.getrandbits(12) + 1, rng.randint(-300, 300)) * rng.choice([1, -1]) for _ in range(n)]
     if shape == "doubles":
         return [rng.uniform(-1000, 1000) for _ in range(n)]
+    if shape == "extreme":
+        # finite values of both signs next to f64::MAX mixed with ordinary ones: x * weight and
+        # mean - mean overflow (fixed defect tdigest-C10-huge-value-overflow; Centroid::add's fallback)
+        big = [1e308, -1e308, 1.7976931348623157e308, -1.7976931348623157e308, 9.5e307, -9.5e307, 1.2e308, -1.6e308]
+        mix = rng.choice([0.0, 0.0, 0.02, 0.1, 0.5])
+        return [(rng.uniform(-10, 10) if rng.random() < mix else
+                 (rng.choice(big) if rng.random() < 0.8 else rng.uniform(-1.7e308, 1.7e308))) for _ in range(n)]
+    if shape == "heavy":
+        # one heavily repeated value inside a spread-out remainder (the equal-means path of the merge pass)
+        hv = rng.choice([1.0, 0.0, 50.0, dyadic(rng, 6, 0, 6)])
+        frac = rng.choice([0.5, 0.9, 0.99])
+        return [hv if rng.random() < frac else rng.uniform(0, 100) for _ in range(n)]
     return [rng.gauss(0, 1) for _ in range(n)]
 
 
-SHAPES = ["sorted", "reversed", "random", "dups", "clustered", "huge", "doubles", "gauss"]
+SHAPES = ["sorted", "reversed", "random", "dups", "clustered", "huge", "doubles", "gauss", "extreme", "heavy"]
 
 
 EXTREME_KS = [10, 10, 11, 29, 30, 31, 32767, 32768, 40000, 65535]
 
 
-def stream_case(rng, cid, tier, big=False, kchoices=None):
-    """C10 + C15 on in-process digests: streams of every shape through update / merge / freeze / roundtrip"""
+def stream_case(rng, cid, tier, big=False, kchoices=None, shape=None, sizes=None):
+    """C10 + C15 on in-process digests: streams of every shape through update / merge / freeze / roundtrip.
+    shape / sizes force one stream shape and the stream lengths (targeted_case)."""
     b = Builder(rng)
     nslots = rng.choice([1, 1, 2, 3]) if not big else rng.choice([1, 2])
+    if shape:
+        nslots = rng.choice([1, 1, 2])
     k = rng.choice([10, 10, 11, 20, 29, 30, 50, 100, 200, 500, rng.randint(10, 500)])
     if rng.random() < 0.04:
         k = rng.choice([32768, 40000, 65535])          # 2 * k does not fit u16 (fixed defect tdigest-C17-two-k-u16-overflow)
@@ -328,9 +339,12 @@ def stream_case(rng, cid, tier, big=False, kchoices=None):
     shapes = []
     for s in range(nslots):
         b.new(s, k if (rng.random() < 0.7 or kchoices) else rng.choice([10, 25, 100]))
+    forced = shape
     for s in range(nslots):
-        shape = rng.choice(SHAPES); shapes.append(shape)
-        if big:
+        shape = forced or rng.choice(SHAPES); shapes.append(shape)
+        if sizes:
+            n = rng.choice(sizes)
+        elif big:
             n = rng.choice([3000, 8000, 20000]) if tier == "quick" else rng.choice([20000, 40000, 60000])       # case length is bounded by the OCaml driver's stack (non-tail-recursive run)
         else:
             n = rng.choice([0, 1, 2, 3, 5, 17, 100, 400, 1500]) if tier == "quick" else rng.choice([0, 1, 2, 3, 50, 1000, 5000, 20000])
@@ -362,19 +376,36 @@ def stream_case(rng, cid, tier, big=False, kchoices=None):
             b.query(6, s, mode, [1.0]); b.dump(s)
             continue
         lo, hi = sim.lo, sim.hi
-        if shapes[s] == "huge":
-            vs = sorted(set(rng.sample(sim.vals, min(60, len(sim.vals))) + [lo, hi])) if sim.vals else [lo, hi]
+        if shapes[s] in ("huge", "extreme"):
+            vs = sorted(set(rng.sample(sim.vals, min(60, len(sim.vals))) + [lo, hi, -1.0, 0.0, 1.0])) if sim.vals else [lo, hi]
+        elif shapes[s] == "heavy":
+            hv = max(set(sim.vals), key=sim.vals.count) if (sim.vals and len(sim.vals) < 5000) else (sim.vals[0] if sim.vals else 0.0)
+            vs = sorted(set(vgrid(rng, rng.sample(sim.vals, min(30, len(sim.vals))) if sim.vals else [], lo, hi)
+                            + [hv, hv - 0.5, hv + 0.5, hv + 0.01, hv - 0.01, hv + 2.0]))
         else:
             vs = vgrid(rng, rng.sample(sim.vals, min(40, len(sim.vals))) if sim.vals else [], lo, hi)
         b.query(3, s, mode, vs)
         b.query(4, s, rng.choice([0, 1]), qgrid(rng, sim.n))
-        sp = [v for v in splits(rng, lo, hi, vs[:6]) if abs(v) < 1e300]
+        sp = splits(rng, lo, hi, vs[:6])
         b.query(3, s, mode, sp); b.query(5, s, mode, sp); b.query(6, s, mode, sp)
         b.rq(s, qgrid(rng, sim.n)[:30])
         b.dump(s)
         if rng.random() < 0.3:
             b.roundtrip(s); b.dump(s); b.query(4, s, 0, [0.0, 0.25, 0.5, 1.0])
     return Case(cid, [], b.ops, tag=("td-extreme-k%d-" % k if kchoices else "td-stream-") + "-".join(shapes) + ("-big" if big else ""))
+
+
+def targeted_case(rng, cid, tier):
+    """the two regions a uniform choice of shapes reaches too rarely:
+    * finite values of both signs next to f64::MAX with a small k and n >= 1000, so that single centroids absorb
+      values across the gap (x * weight and mean - mean overflow: tdigest-C10-huge-value-overflow; Centroid::add's
+      fallback branch);
+    * one heavily repeated value inside a spread-out stream with k >= 50 (the equal-means path of the merge pass:
+      cluster sizes against the scale function, rank next to the heavy value)."""
+    if rng.random() < 0.5:
+        return stream_case(rng, cid, tier, kchoices=[10, 10, 12, 15, 20], shape="extreme", sizes=[1000, 2000, 3000])
+    return stream_case(rng, cid, tier, kchoices=[50, 100, 200], shape="heavy",
+                       sizes=[3000, 6000] if tier == "quick" else [10000, 30000])
 
 
 def edge_case(rng, cid):
@@ -477,17 +508,18 @@ def random_abstract(rng, flt=False, maxn=40, maxw=2 ** 20, with_buffer=True):
         means[1] = means[0]                          # duplicate means are legal
     ws = [rng.choice([1, 1, 2, 3, 7, 64, 1000, rng.randint(1, maxw)]) for _ in means]
     mn = means[0] - rng.choice([0, 0, 1, 0.5, 16]); mx = means[-1] + rng.choice([0, 0, 1, 0.25, 8])
-    if ws[0] == 1:
+    tight = rng.random() < 0.5                       # half of the images have the in-process shape
+    if tight and ws[0] == 1:
         mn = means[0]
-    if ws[-1] == 1:
+    if tight and ws[-1] == 1:
         mx = means[-1]
     nb = rng.choice([0, 0, 1, 2, 5, 17]) if with_buffer else 0
-    # buffered values of a real digest: the centroids end in unit centroids sitting on the old extremes;
-    # a buffered value lies between them or is a new extreme (anything else compresses into the
-    # inconsistent class of known finding D17)
-    if nb:
+    # buffered values of a real digest: the centroids end in unit centroids sitting on the old extremes and a
+    # buffered value lies between them or is a new extreme; the other half are arbitrary valid images (unit
+    # or heavy end centroids anywhere inside [min, max]: the region of the former finding tdigest-D17)
+    if nb and tight:
         ws[0] = ws[-1] = 1; mn, mx = means[0], means[-1]
-    lo, hi = means[0], means[-1]
+    lo, hi = (means[0], means[-1]) if tight else (mn, mx)
     buffered = [lo + (hi - lo) * rng.randrange(0, 65) / 64 for _ in range(nb)] if hi > lo else [lo] * nb
     if nb and rng.random() < 0.3:
         mn = mn - 1; buffered[0] = mn
@@ -857,7 +889,8 @@ def gen(rng, tier, n=None, focus=None):
     n = n or (140 if tier == "quick" else 1500)
     out = []
     if focus == "extremes":
-        return [valid_edge_case(rng, i) if rng.random() < 0.4 else stream_case(rng, i, tier, kchoices=EXTREME_KS) for i in range(n)]
+        return [targeted_case(rng, i, tier) if i % 8 == 3 else
+                (valid_edge_case(rng, i) if rng.random() < 0.4 else stream_case(rng, i, tier, kchoices=EXTREME_KS)) for i in range(n)]
     if focus in ("codec", "layout", "foreign", "malformed", "size"):
         for i in range(n):
             r = rng.random()
@@ -874,7 +907,9 @@ def gen(rng, tier, n=None, focus=None):
         return out
     for i in range(n):
         r = rng.random()
-        if focus == "c15":
+        if i % 10 == 7:
+            out.append(targeted_case(rng, i, tier))
+        elif focus == "c15":
             if r < 0.08:
                 out.append(stream_case(rng, i, tier, big=True))
             elif r < 0.9:
@@ -894,54 +929,118 @@ def gen(rng, tier, n=None, focus=None):
 
 
 # ---------------- measured (NOT proved) sub-claims of C15: labelled tests ----------------
-_MEASURED = {"note": "MEASURED TESTS, not theorems (DESIGN.md section 9): centroid count vs 2k+30 and rank error vs the "
-                     "empirical distribution of in-process streams", "max_centroids_over_bound": 0.0, "dumps": 0,
-             "max_rank_err_times_k_over_q1q": 0.0, "max_abs_rank_err": 0.0, "rank_points": 0}
+# The pass / fail versions are Coq oracles (Corr/TDigest.v): c15_ok (centroid count <= 2k+30) and acc_ok (cluster
+# sizes against the k2 scale function, rank against the exact empirical rank).  _measure only RECORDS the worst
+# cases seen in this run, next to the thresholds, in evidence/measured/.
+ACC_SIZE_C = 2          # Corr/TDigest.v ACC_SIZE_C
+ACC_NEIGH_F = 4         # Corr/TDigest.v ACC_NEIGH_F
+_MEASURED = {"note": "MEASURED TESTS, not theorems (DESIGN.md section 9).  centroids/(2k+30) <= 1 is checked by oracle c15_ok; "
+                     "size_ratio <= ACC_SIZE_C and neigh_ratio_single <= ACC_NEIGH_F are checked by oracle acc_ok; the other "
+                     "numbers are recorded only",
+             "thresholds": {"max_centroids_over_bound": 1.0, "size_ratio": ACC_SIZE_C, "neigh_ratio_single": ACC_NEIGH_F},
+             "max_centroids_over_bound": 0.0, "dumps": 0, "size_ratio": 0.0, "neigh_ratio_single": 0.0, "neigh_ratio_merged": 0.0,
+             "max_abs_rank_err": 0.0, "rank_points": 0}
+
+
+def _is_nonfinite(b):
+    return (b >> 52) & 0x7ff == 0x7ff
+
+
+def _f(b):
+    return struct.unpack("<d", struct.pack("<Q", b))[0]
 
 
 def _measure(case, obs):
-    """centroid count / (2k+30) on every dump; |rank - empirical rank| on the rank queries of streams"""
-    ks, vals = {}, {}
+    """follows every slot whose complete multiset of values is known (in-process streams, through merge, fork and
+    round trips; a slot filled from a foreign image is not followed) and records
+    * centroids / (2k+30) on every dump,
+    * size_ratio: (w - 1) / (n max(q0(1-q0), q2(1-q2)) Z / 2k) over the centroids of every dump (k = the smallest
+      compression that contributed; Z = 4 ln(n/2k) + 24),
+    * neigh_ratio: (|rank(v) - empirical mid-rank| - 1/2n) / (weight of the centroids around v / n), separately for
+      never-merged digests (checked) and merged ones (recorded only: centroids of a coarser digest overlap),
+    * the largest absolute rank error and where it occurred."""
+    import bisect
+    M = _MEASURED
+    ks, kmin, vals, merged, cent = {}, {}, {}, {}, {}
     for (code, a), ob in zip(case.ops, obs):
         if ob == [-999]:
             break
+        if ob == [-996]:
+            continue
+        slot = a[0] if a else None
         if code == 0:
-            ks[a[0]] = a[1]; vals[a[0]] = []
-        elif code == 15:
-            vals[a[0]] = None
-        elif code == 1 and vals.get(a[0]) is not None and a[1] not in (NAN, INF, NINF):
-            vals[a[0]].append(struct.unpack("<d", struct.pack("<Q", a[1]))[0])
-        elif code == 2 and ob:
-            d, s = a[0], a[1]
-            vals[d] = None if (vals.get(d) is None or vals.get(s) is None) else vals[d] + vals[s]
-        if code in (2, 11, 12, 16) and len(ob) >= 3 and a[0] in ks and vals.get(a[0]) is not None:
-            _MEASURED["dumps"] += 1
-            _MEASURED["max_centroids_over_bound"] = max(_MEASURED["max_centroids_over_bound"], ob[2] / (2 * ks[a[0]] + 30))
-        if code == 3 and a[0] in ks and vals.get(a[0]):
-            import bisect
-            sv = sorted(vals[a[0]]); n = len(sv); k = ks[a[0]]
+            ks[slot] = kmin[slot] = a[1]; vals[slot] = []; merged[slot] = False; cent[slot] = None
+        elif code in (15, 21):
+            if ob == [1]:
+                ks.pop(slot, None); vals[slot] = None; cent[slot] = None
+        elif code == 1 and slot in ks and not _is_nonfinite(a[1]):
+            if vals.get(slot) is not None:
+                vals[slot].append(_f(a[1]))
+            cent[slot] = None
+        elif code == 2 and ob and slot in ks:
+            src = a[1]
+            if src in ks:
+                kmin[slot] = min(kmin[slot], kmin[src])
+                vals[slot] = None if (vals.get(slot) is None or vals.get(src) is None) else vals[slot] + vals[src]
+            else:
+                ks.pop(slot, None); vals[slot] = None
+            merged[slot] = True
+        elif code == 19:
+            dst = a[1]
+            if slot in ks:
+                ks[dst], kmin[dst], merged[dst], cent[dst] = ks[slot], kmin[slot], merged[slot], cent.get(slot)
+                vals[dst] = None if vals.get(slot) is None else list(vals[slot])
+            else:
+                ks.pop(dst, None); vals[dst] = None
+        if code in (2, 11, 12, 16) and len(ob) >= 5 and slot in ks:
+            cs = [(_f(ob[5 + 2 * i]), ob[6 + 2 * i]) for i in range((len(ob) - 5) // 2)]
+            cent[slot] = cs
+            n = sum(w for _, w in cs)
+            M["dumps"] += 1
+            M["max_centroids_over_bound"] = max(M["max_centroids_over_bound"], len(cs) / (2 * ks[slot] + 30))
+            k = kmin[slot]
+            if n and k >= 10:
+                z = 4 * math.log(max(1.0, n / (2 * k))) + 24
+                W = 0
+                for _, w in cs:
+                    if w >= 2:
+                        q0, q2 = W / n, (W + w) / n
+                        lim = n * max(q0 * (1 - q0), q2 * (1 - q2)) * z / (2 * k)
+                        if lim > 0 and (w - 1) / lim > M["size_ratio"]:
+                            M["size_ratio"] = (w - 1) / lim
+                            M["size_ratio_at"] = {"k": k, "n": n, "w": w, "q0": q0, "case_tag": case.tag}
+                    W += w
+        if code == 3 and slot in ks and vals.get(slot) and cent.get(slot):
+            sv = sorted(vals[slot]); n = len(sv); cs = cent[slot]
+            means = [m for m, _ in cs]; ws = [w for _, w in cs]; cw = sum(ws)
             for vb, rb in zip(a[2:], ob):
-                if rb < 0:
+                if rb < 0 or _is_nonfinite(vb):
                     continue
-                v = struct.unpack("<d", struct.pack("<Q", vb))[0]; r = struct.unpack("<d", struct.pack("<Q", rb))[0]
+                v, r = _f(vb), _f(rb)
                 true = (bisect.bisect_left(sv, v) + bisect.bisect_right(sv, v)) / 2 / n
                 err = abs(r - true)
-                _MEASURED["rank_points"] += 1
-                _MEASURED["max_abs_rank_err"] = max(_MEASURED["max_abs_rank_err"], err)
-                q1q = max(true * (1 - true), 1.0 / n)
-                _MEASURED["max_rank_err_times_k_over_q1q"] = max(_MEASURED["max_rank_err_times_k_over_q1q"], err * k / q1q)
+                M["rank_points"] += 1
+                if err > M["max_abs_rank_err"]:
+                    M["max_abs_rank_err"] = err
+                    M["max_abs_rank_err_at"] = {"k": kmin[slot], "n": n, "true_rank": true, "merged": merged[slot], "case_tag": case.tag}
+                cl, cle = bisect.bisect_left(means, v), bisect.bisect_right(means, v)
+                lo = max(0, cl - 2)
+                neigh = sum(ws[lo:cle + 2]) / cw
+                ratio = max(0.0, err - 0.5 / n) / neigh
+                key = "neigh_ratio_merged" if merged[slot] else "neigh_ratio_single"
+                if ratio > M[key]:
+                    M[key] = ratio
+                    M[key + "_at"] = {"k": kmin[slot], "n": n, "true_rank": true, "err": err, "neigh": neigh, "case_tag": case.tag}
 
 
 def nontrivial(case, obs):
     """non-trivial: at least one non-empty rank or quantile grid answered on a digest holding >= 2 values"""
-    try:
-        _measure(case, obs)
-        # measured tests (NOT proofs) go to a sub-directory: every *.json directly under evidence/ is a property's evidence file
+    _measure(case, obs)
+    # measured tests (NOT proofs) go to a sub-directory: every *.json directly under evidence/ is a property's evidence file
+    name = {"c15": "C15", None: "C10"}.get(_FOCUS[0])
+    if name:
         p = os.path.join(os.path.dirname(os.path.abspath(__file__)), "..", "..", "evidence", "measured")
         os.makedirs(p, exist_ok=True)
-        name = {"c15": "C15", None: "C10"}.get(_FOCUS[0])
-        if name:
-            json.dump(_MEASURED, open(os.path.join(p, name + "-tdigest-measured-tests.json"), "w"), indent=1)
-    except Exception:
-        pass
+        with open(os.path.join(p, name + "-tdigest-measured-tests.json"), "w") as fh:
+            json.dump(_MEASURED, fh, indent=1)
     return any(c in (3, 4) and len(a) > 4 and len(o) > 2 and o[0] >= 0 for (c, a), o in zip(case.ops, obs))
